@@ -347,6 +347,7 @@ func workerMain(d *Driver, tier, worker, out string) {
 	}
 	if out != "" {
 		c.hbFile = strings.TrimSuffix(out, ".json") + ".hb"
+		progressHook = c.beat
 		c.beat()
 	}
 	b := d.BudgetQuick
